@@ -277,6 +277,93 @@ def stage_domain_oracle(ctx: Ctx):
             FST.set_options(**before)
 
 
+# ---- direct oracle: block restore / thread isolation on the implementation ------------------------------------------
+
+def stage_block_oracle(ctx: Ctx):
+    """Property predicate evaluated on the real API, no model: after leaving an options() block (normally or by
+    exception) every option NAMED by the block has its pre-block value (compared by repr, so 1 vs True is seen) and
+    every other option has the value it had just before the exit; work done in a worker thread never changes the
+    defaults the main thread sees, and a new thread starts from the library defaults."""
+    from fst import FST
+    from fst import fst_options
+    rng = ctx.rng
+    names = list(fst_options._GLOBAL_OPTIONS_W_DEFAULTS)
+    defaults = {k: rv(v) for k, v in fst_options._GLOBAL_OPTIONS_W_DEFAULTS.items()}
+
+    def snap():
+        return {k: rv(v) for k, v in FST.get_options().items()}
+
+    def rand_kvs():
+        ks = rng.sample(names, rng.randrange(1, 4))
+        return {n: rng.choice([v for v in VALUES if doc_valid(n, v)]) for n in ks}
+
+    def nest(depth, log):
+        """returns None or a violation description"""
+        kvs = rand_kvs()
+        before = snap()
+        boom = rng.random() < 0.35
+        inner_set = None
+        try:
+            with FST.options(**kvs):
+                log.append(('enter', {k: rv(v) for k, v in kvs.items()}))
+                if rng.random() < 0.3:
+                    inner_set = rand_kvs()
+                    FST.set_options(**inner_set)
+                    log.append(('set', {k: rv(v) for k, v in inner_set.items()}))
+                if depth < 3 and rng.random() < 0.6:
+                    r = nest(depth + 1, log)
+                    if r:
+                        return r
+                if rng.random() < 0.2:
+                    try:
+                        FST.set_options(pars='maybe')
+                    except ValueError:
+                        pass
+                at_exit = snap()
+                if boom:
+                    log.append(('raise',))
+                    raise KeyError('boom')
+                log.append(('exit',))
+        except KeyError:
+            pass
+        after = snap()
+        for n in names:
+            want = before[n] if n in kvs else at_exit[n]
+            if after[n] != want:
+                return {'option': n, 'named_by_block': n in kvs, 'before_block': before[n], 'just_before_exit': at_exit[n], 'after_block': after[n],
+                        'exceptional_exit': boom}
+        return None
+
+    main_before = snap()
+    for it in range(ctx.scale(150, 3000)):
+        in_thread = rng.random() < 0.6
+        log = []
+        res = {}
+        if in_thread:
+            def work():
+                res['start'] = snap()
+                res['v'] = nest(0, log)
+            t = threading.Thread(target=work)
+            t.start()
+            t.join()
+            if res['start'] != defaults:
+                ctx.violation('fresh-thread-defaults', 'a new thread did not start from the library defaults', {'seen': res['start']})
+        else:
+            keep = FST.get_options()
+            res['v'] = nest(0, log)
+            FST.set_options(**keep)
+        ctx.tick(('block', json.dumps(log, default=repr)), 'block-nest' + (':thread' if in_thread else ':main'))
+        if res.get('v'):
+            ctx.violation(f'block-restore|{res["v"]["option"]}|named={res["v"]["named_by_block"]}|exn={res["v"]["exceptional_exit"]}',
+                          'options() block did not restore exactly', {'log': log, 'in_worker_thread': in_thread, **res['v']})
+        if in_thread and snap() != main_before:
+            now = snap()
+            ctx.violation('thread-leak', "work in a worker thread changed the main thread's option defaults",
+                          {'log': log, 'changed': {k: (main_before[k], now[k]) for k in names if now[k] != main_before[k]}})
+            FST.set_options(**{k: v for k, v in fst_options._GLOBAL_OPTIONS_W_DEFAULTS.items()})
+            main_before = snap()
+
+
 # ---- threads editing different trees ---------------------------------------------------------------------------------
 
 def script_for(seed, progs, nops):
@@ -403,7 +490,8 @@ def run(ctx: Ctx):
     ok = stage_translate(ctx)
     if ok:
         ctx.build_props()
-        run_guarded(ctx, stage_options_corr)
+    run_guarded(ctx, stage_options_corr)
+    run_guarded(ctx, stage_block_oracle)
     run_guarded(ctx, stage_domain_oracle)
     progs = [p for p in corpus(ctx.rng, gen=ctx.scale(10, 40)) if len(p) < 1500]
     run_guarded(ctx, stage_registry_commute_corr)
